@@ -196,6 +196,9 @@ func (w *World) buildHandlers(idx int, cfg *HandlerCfg) [4]http.Handler {
 		a := w.newAlgo(name)
 		opts = append(opts, connect.WithCompression(name, a.newDecompressor, a.newCompressor))
 	}
+	for _, name := range cfg.NilComp {
+		opts = append(opts, connect.WithCompression(name, nil, nil))
+	}
 	if cfg.CompressMin > 0 {
 		opts = append(opts, connect.WithCompressMinBytes(cfg.CompressMin))
 	}
@@ -322,6 +325,9 @@ func (w *World) client(p *CallPlan) *connect.Client[Msg, Msg] {
 	for _, name := range cfg.Accept {
 		a := w.newAlgo(name)
 		opts = append(opts, connect.WithAcceptCompression(name, a.newDecompressor, a.newCompressor))
+	}
+	for _, name := range cfg.NilAccept {
+		opts = append(opts, connect.WithAcceptCompression(name, nil, nil))
 	}
 	if cfg.SendComp != "" {
 		opts = append(opts, connect.WithSendCompression(cfg.SendComp))
